@@ -856,6 +856,55 @@ pub fn drive(tier: &str) -> i32 {
         }
         groups.push(("block programs with statements beyond column 255 (every other line indented by 256 blanks, 300 blanks after statement colons)".into(), far));
     }
+    {
+        // two blocks of the same kind whose positions coincide under a lossy encoding of (row, column): the digits written
+        // one after the other, the sum, the product, row and column swapped (thorough: every pair of the lattice)
+        let rows: [u32; 9] = [1, 2, 11, 12, 21, 101, 111, 112, 121];
+        let cols: [u32; 9] = [1, 2, 3, 11, 12, 13, 21, 23, 111];
+        let block = |kind: usize, v: &str| -> Vec<String> {
+            match kind {
+                0 => vec![format!("FOR {} = 1 TO 2", v), "T% = T% + 1".into(), "NEXT".into()],
+                1 => vec![format!("WHILE {} < 2", v), format!("{} = {} + 1", v, v), "WEND".into()],
+                2 => vec!["DO".into(), format!("{} = {} + 1", v, v), format!("LOOP UNTIL {} >= 2", v)],
+                3 => vec![format!("IF {} = 0 THEN", v), "T% = T% + 1".into(), "ELSE".into(), "T% = T% + 100".into(), "END IF".into()],
+                _ => vec![format!("SELECT CASE {}", v), "CASE 0".into(), "T% = T% + 1".into(), "CASE ELSE".into(), "T% = T% + 100".into(), "END SELECT".into()],
+            }
+        };
+        let mut texts = vec![];
+        for &r1 in &rows {
+            for &c1 in &cols {
+                for &r2 in &rows {
+                    for &c2 in &cols {
+                        if r2 < r1 + 7 {
+                            continue;
+                        }
+                        let alias = format!("{}{}", r1, c1) == format!("{}{}", r2, c2) || r1 + c1 == r2 + c2 || r1 * c1 == r2 * c2 || (r1 == c2 && c1 == r2) || (r1 ^ c1) == (r2 ^ c2) || (r1 % 10 == r2 % 10 && c1 == c2) || (r1 == r2 % 100 && c1 == c2);
+                        if quick && !alias {
+                            continue;
+                        }
+                        for kind in 0..5 {
+                            let mut lines: Vec<String> = vec![];
+                            while (lines.len() as u32) < r1 - 1 {
+                                lines.push("'".into());
+                            }
+                            let mut b1 = block(kind, "A%");
+                            b1[0] = format!("{}{}", " ".repeat(c1 as usize - 1), b1[0]);
+                            lines.extend(b1);
+                            while (lines.len() as u32) < r2 - 1 {
+                                lines.push("'".into());
+                            }
+                            let mut b2 = block(kind, "B%");
+                            b2[0] = format!("{}{}", " ".repeat(c2 as usize - 1), b2[0]);
+                            lines.extend(b2);
+                            lines.push("PRINT T%; A%; B%".into());
+                            texts.push(lines.join("\n") + "\n");
+                        }
+                    }
+                }
+            }
+        }
+        groups.push(("two blocks of the same kind (FOR, WHILE, DO, IF, SELECT CASE) at positions that coincide under a lossy encoding of row and column (digits concatenated, sum, product, swapped, xor, low digits)".into(), texts));
+    }
     groups.push((
         "statement soups".into(),
         vcore::slots::statement_soups(if quick { 2 } else { 3 }, 30),
